@@ -437,6 +437,10 @@ fn gen_end(rng: &mut Rng, faults: bool) -> End {
 }
 
 fn gen_body(rng: &mut Rng, layout: Layout, depth: usize, budget: &mut i32, faults: bool) -> Vec<Op> {
+    gen_body_d(rng, layout, depth, budget, faults, 4)
+}
+
+fn gen_body_d(rng: &mut Rng, layout: Layout, depth: usize, budget: &mut i32, faults: bool, max_depth: usize) -> Vec<Op> {
     let n = match rng.below(8) {
         0 => 0,
         1..=5 => 1 + rng.below(4),
@@ -459,11 +463,11 @@ fn gen_body(rng: &mut Rng, layout: Layout, depth: usize, budget: &mut i32, fault
             11..=14 => Op::ThenInto { ty: rng.below(layout.k() as u64) as u8, unclamped: rng.chance(1, 3) },
             15..=16 => Op::SwitchMode,
             _ => {
-                if depth < 4 {
+                if depth < max_depth {
                     let ty = rng.below(layout.k() as u64) as u8;
                     let unclamped = rng.chance(1, 3);
                     let entry = if rng.chance(1, 2) { Entry::From } else { Entry::Into };
-                    let nb = gen_body(rng, layout, depth + 1, budget, faults);
+                    let nb = gen_body_d(rng, layout, depth + 1, budget, faults, max_depth);
                     Op::Nest { ty, unclamped, entry, body: nb, end: gen_end(rng, faults) }
                 } else {
                     Op::Read
@@ -506,29 +510,34 @@ impl World for C13 {
             5 => Layout::D,
             _ => Layout::E,
         };
+        // the thorough tier spends a quarter of its plans beyond the quick tier's bounds:
+        // buffers up to 96 colors, 90 guard operations, guard chains up to 6 deep
+        let deep = tier == Tier::Thorough && index % 4 == 1;
         let len = match rng.below(12) {
             0 => 0,
             1 | 2 => 1,
             3..=8 => 2 + rng.below(5),
+            _ if deep => 7 + rng.below(90),
             _ => 7 + rng.below(18),
         } as usize;
         let buf: Vec<Words> = (0..len).map(|_| gen_words(rng, layout)).collect();
         let faults = rng.chance(6, 10);
         let n_eps = 1 + rng.below(3) as usize;
-        let mut budget = 40i32;
+        let mut budget = if deep { 90i32 } else { 40i32 };
+        let max_depth = if deep { 6 } else { 4 };
         let mut episodes = Vec::new();
         for _ in 0..n_eps {
             let ty = rng.below(layout.k() as u64) as u8;
             let unclamped = rng.chance(1, 3);
             let entry = if rng.chance(1, 2) { Entry::From } else { Entry::Into };
             let e = match rng.below(10) {
-                0..=6 => Episode::Guard { ty, unclamped, entry, body: gen_body(rng, layout, 1, &mut budget, faults), end: gen_end(rng, faults) },
+                0..=6 => Episode::Guard { ty, unclamped, entry, body: gen_body_d(rng, layout, 1, &mut budget, faults, max_depth), end: gen_end(rng, faults) },
                 7 if layout.has_single() && len > 0 => Episode::Single {
                     idx: rng.below(64) as u16,
                     ty,
                     unclamped,
                     entry,
-                    body: gen_body(rng, layout, 1, &mut budget, faults),
+                    body: gen_body_d(rng, layout, 1, &mut budget, faults, max_depth),
                     end: gen_end(rng, faults),
                 },
                 _ => Episode::Owned {
@@ -632,7 +641,7 @@ impl World for C13 {
                 "the ordinary by-value conversions (from_color / from_color_unclamped) are the oracle: the property is 'in place = out of place'",
                 "comparison is bitwise on the component words, read through the typed view's public fields",
                 "after a panicking conversion only ownership is judged (no double drop, nothing dead reachable, caller-owned buffers fully live): the documentation leaves the values unspecified",
-                "bounds: <= 24 colors, <= 40 guard ops per plan, guard chains <= 4 deep; crash points exhaustive for lengths 0..=6",
+                "bounds: <= 24 colors, <= 40 guard ops per plan, guard chains <= 4 deep (thorough tier, a quarter of the plans: <= 96 colors, <= 90 ops, <= 6 deep); crash points exhaustive for lengths 0..=6 (three components) and 0..=3 (one, two, four components)",
             ],
             real: vec![
                 "palette convert/from_into_color_mut.rs and from_into_color_unclamped_mut.rs (guards, Deref, DerefMut, then_into_*, into_*_guard, restore, Drop)",
